@@ -179,8 +179,22 @@ def variants_for(P, inst):
         return [(name, base, postf)]
     out = []
     combos = [{}]
-    for path in sorted(mentioned):
-        combos = [dict(c, **{path: alt}) for c in combos for alt in pairs[path]]
+    SR, PF = 'memmem::searcher::Searcher', 'memmem::searcher::Prefilter'
+    if SR in mentioned and PF in mentioned:
+        # the prefilter alternative only matters for searcher kinds whose union field holds a Prefilter
+        sty = next(t for t in P.types if t.get('kind') == 'adt' and t.get('path') == 'memmem::searcher::SearcherKind')
+        combos = []
+        for alt in pairs[SR]:
+            fld = sty['variants'][0]['fields'][alt[1]]
+            if type_mentions(P, fld['ty'], {PF}):
+                combos += [{SR: alt, PF: palt} for palt in pairs[PF]]
+            else:
+                combos.append({SR: alt, PF: pairs[PF][0]})
+        for path in sorted(mentioned - {SR, PF}):
+            combos = [dict(c, **{path: alt}) for c in combos for alt in pairs[path]]
+    else:
+        for path in sorted(mentioned):
+            combos = [dict(c, **{path: alt}) for c in combos for alt in pairs[path]]
     for c in combos:
         label = name + ':' + ','.join(f"{k.rsplit('::', 1)[1]}={v[0].rsplit('::', 1)[1]}" for k, v in sorted(c.items()))
         out.append((label, with_alts(c, base), postf))
